@@ -64,7 +64,9 @@ def build_data(spec):
     data = {}
     lp = leaf_paths(spec['shape'])
     absent = spec.get('absent') or {}
-    for i, t in enumerate(spec['times']):
+    order = spec.get('order') or list(range(len(spec['times'])))
+    for i in order:
+        t = spec['times'][i]
         row = {}
         for path, tag in lp:
             if absent.get(pkey(path)) and absent[pkey(path)][i]:
@@ -108,11 +110,29 @@ def get(tree, path):
     return cur
 
 
+def time_vector(res, spec, ts, what):
+    """The time vector of a timeseries view: the emitted times, in time order
+    when the raw data was in time order; for raw data held in another order
+    (merged chunks) only the one-to-one alignment of every series with the
+    vector is required.  Returns the vector the cells are aligned with."""
+    tv = ts.get('time')
+    times = spec['times']
+    if spec.get('order') and spec['order'] != sorted(spec['order']):
+        if not isinstance(tv, list) or sorted(tv) != sorted(times):
+            res.fail(what + '.time', 'time vector %r is not a permutation of '
+                     'the emitted times %r' % (tv, times))
+            return None
+        return tv
+    if tv != times:
+        res.fail(what + '.time', 'time vector %r != %r' % (tv, times))
+        return None
+    return times
+
+
 def check_timeseries(res, spec, data, ts, what):
     """ts: embedded timeseries; compare with data cell by cell and rebuild."""
-    times = spec['times']
-    if ts.get('time') != times:
-        res.fail(what + '.time', 'time vector %r != %r' % (ts.get('time'), times))
+    times = time_vector(res, spec, ts, what)
+    if times is None:
         return
     lp = leaf_paths(spec['shape'])
     n_leaves = 0
@@ -147,9 +167,8 @@ def check_timeseries(res, spec, data, ts, what):
 
 
 def check_path_timeseries(res, spec, data, pts, what):
-    times = spec['times']
-    if pts.get('time') != times:
-        res.fail(what + '.time', 'time vector %r' % (pts.get('time'),))
+    times = time_vector(res, spec, pts, what)
+    if times is None:
         return
     lp = leaf_paths(spec['shape'])
     want_keys = set()
@@ -231,6 +250,8 @@ def run_pure(spec, res):
         timeseries_from_data, path_timeseries_from_data,
         path_timeseries_from_embedded_timeseries)
     data = build_data(spec)
+    if spec.get('order') and spec['order'] != sorted(spec['order']):
+        res.label('raw_data_not_in_time_order')
     ts = timeseries_from_data(build_data(spec))
     check_timeseries(res, spec, data, ts, 'timeseries_from_data')
     pts = path_timeseries_from_data(build_data(spec))
@@ -473,6 +494,9 @@ def strategy_(draw, tier):
         query = draw(st.lists(cand, min_size=1, max_size=4, unique_by=tuple))
     spec = {'mode': mode, 'shape': shape, 'times': times, 'cells': cells,
             'query': query}
+    if mode == 'pure' and n >= 2 and draw(st.integers(0, 2)) == 0:
+        # raw data held in another order than time order (merged chunks)
+        spec['order'] = list(draw(st.permutations(list(range(n)))))
     if mode == 'emitter' and query and n >= 2 and draw(st.integers(0, 2)) == 0:
         # ragged history (query clause only): some variables are missing at
         # some times, e.g. an agent that divided or died
